@@ -2,7 +2,9 @@
   C05 / C06 / C04 for OKI/VOX ADPCM (vox_adpcm.c after the repair of KF-VOX-ODD): two samples per byte, the odd sample
   of a call held in the codec's private data.
 -- properties: C04 C05 C06 C07
-  C05  a read call copies at most the requested number of samples — exactly the next ones of the stream —, falls short
+  C05  at the handle (`vox_handle_read`): a read returns min (n, frames left), advances the position by exactly that, delivers
+       the next samples of the stream, zero-fills at the end — after any history (`VInv`); at the codec loops:
+       a read call copies at most the requested number of samples — exactly the next ones of the stream —, falls short
        only when the data ends; a write call reports the count it was given (any parity, any staging).
   C06  the stream is a function of position only: any partition into read calls delivers the same samples.
   C04  N samples written -> (N + 1) / 2 bytes -> F = 2 * ((N + 1) / 2) frames at re-open, N <= F < N + 2 (B = 2);
@@ -132,5 +134,60 @@ theorem vox_frames_old_rule :
 theorem vox_reopen_delivers_frames (calls : List (List Int)) :
     (stream {} none (voxFile {} none calls)).length = (VoxR.open (voxFile {} none calls)).frames := by
   simp only [stream, Option.toList_none, List.nil_append, decBytes_length, VoxR.open]
+
+/-! ## C05 at the handle: `sf_read_*` on a VOX handle (count, position, end of data) -/
+
+/-- the invariant of a VOX read handle: the samples it has not delivered yet (held sample first, then the decoded rest of
+    the file) are exactly the frames it still counts -/
+def VInv (h : VoxR) : Prop := h.pos ≤ h.frames ∧ (stream h.st h.carry h.rest).length = h.frames - h.pos
+
+theorem vox_handle_open_inv (data : List Byte) : VInv (VoxR.open data) := by
+  simp [VInv, VoxR.open, stream, decBytes_length]
+
+/-- one `sf_read_<ty> (h, buf, n)`: it returns min (n, frames left) — so less than requested only when the data ends, and 0
+    at the end —, advances the position by exactly that, delivers the next samples of the stream (converted to the caller's
+    type) and nothing else (`none` = the whole request zero-filled at the end of the data), and keeps the invariant: by
+    induction the statement holds after any history of reads of any sizes and types -/
+theorem vox_handle_read (h : VoxR) (c : Conv) (ty : Ty) (n : Nat) (hi : VInv h) :
+    let r := h.read c ty n
+    r.2.2 = min n (h.frames - h.pos) ∧ r.1.pos = h.pos + r.2.2 ∧ r.1.frames = h.frames ∧ VInv r.1 ∧
+    (0 < n → h.pos < h.frames → r.2.1 = some (((stream h.st h.carry h.rest).take n).map (Oki.toCaller c ty))) ∧
+    (0 < n → h.frames ≤ h.pos → r.2.1 = none) := by
+  obtain ⟨hp, hl⟩ := hi
+  simp only
+  unfold VoxR.read
+  by_cases hn : n = 0
+  · subst hn; simp [VInv, hp, hl]
+  · simp only [hn, if_false]
+    by_cases he : h.pos ≥ h.frames
+    · have : h.frames - h.pos = 0 := by omega
+      simp [he, this, VInv, hp, hl]
+    · simp only [he, if_false]
+      obtain ⟨b1, b2, b3⟩ := voxReadCall_spec (Oki.chunkOf ty) (n + 1) h.st h.carry h.rest n (Nat.lt_succ_self _)
+      have hcnt : (voxReadCall (Oki.chunkOf ty) (n + 1) h.st h.carry h.rest n).2.2.2.2 ≤ h.frames - h.pos := by
+        rw [b2, hl]; omega
+      simp only [hcnt, if_true]
+      have hc2 : (voxReadCall (Oki.chunkOf ty) (n + 1) h.st h.carry h.rest n).2.2.2.2 = min n (h.frames - h.pos) := by rw [b2, hl]
+      and_intros
+      · exact hc2
+      · trivial
+      · trivial
+      · show h.pos + _ ≤ h.frames
+        rw [hc2]; omega
+      · show (stream _ _ _).length = h.frames - (h.pos + _)
+        rw [b3, List.length_drop, hl, hc2]; omega
+      · intro _ _
+        rw [b1, hc2, ← hl]
+        congr 2
+        by_cases hle : n ≤ (stream h.st h.carry h.rest).length
+        · rw [Nat.min_eq_left hle, List.take_take, Nat.min_self]
+        · rw [Nat.min_eq_right (by omega), List.take_of_length_le (by rw [List.length_take]; omega)]
+      · intro _ h2; exact h2.elim
+
+/-- non-vacuity: 3 bytes = 6 frames; reads of 3, 5, 1 items return 3, 3, 0 (the last one zero-fills) -/
+example :
+    ((VoxR.open [0x12, 0x34, 0x56]).read {} .s16 3).2.2 = 3 ∧
+    ((((VoxR.open [0x12, 0x34, 0x56]).read {} .s16 3).1).read {} .s32 5).2.2 = 3 ∧
+    (((((VoxR.open [0x12, 0x34, 0x56]).read {} .s16 3).1).read {} .s32 5).1.read {} .s16 1).2 = (none, 0) := by decide
 
 end Sf.C05Vox
